@@ -12,6 +12,10 @@ Devs(e) ==
   ELSE IF e.res.class = "panic" THEN { <<"parsing the grammar panicked", e.res.msg>> }
   ELSE IF e.res.class = "err" THEN { <<"valid source rejected", e.res.errors>> }
   ELSE YDevs(e.doc, e.res.obs)
+       \* a text that names its own kind in a %grmtools section can be read through from_str as well:
+       \* every public entry point must make the same grammar of the same text
+       \cup (IF "entries_agree" \in DOMAIN e.res /\ ~e.res.entries_agree
+             THEN { <<"the public entry points (from_str / new) make different grammars of the same text", 0>> } ELSE {})
 Init == l = 1 /\ ndev = 0
 Next == /\ l <= Len(Rec) /\ l' = l + 1
         /\ LET e == Rec[l]  ds == Devs(e) IN Report(e.id, ds) /\ ndev' = ndev + Cardinality(ds)
